@@ -15,7 +15,7 @@ import (
 
 func init() { Registry["C08"] = C08 }
 
-var c08Paths = []string{"print", "assign", "concat", "concat-direct", "compare", "compare-var-right", "argument", "argument-direct", "return", "slice-store-literal", "slice-store-assign", "range", "subscript", "len", "write-read"}
+var c08Paths = []string{"print", "assign", "concat", "concat-direct", "compare", "compare-var-right", "argument", "argument-direct", "return", "slice-store-literal", "slice-store-assign", "range", "subscript", "len", "write-read", "direct-measure", "direct-store"}
 var c08Origins = []string{"literal", "file", "stdin", "command", "stdin-in-function"}
 var c08Positions = []string{"only", "first", "middle", "last"}
 
@@ -133,6 +133,30 @@ func c08Program(v, path, origin string) (src string, stdin string, pre map[strin
 	case "len":
 		b.WriteString("print(len(v), len(v + \"xy\"))\n")
 		wantOut = fmt.Sprintf("%d %d\n", len(v), len(v)+2)
+	case "direct-measure":
+		// the literal written directly where a string is measured or ranged over (a back-end may fold those)
+		if origin != "literal" {
+			return "", "", nil, "", nil, false
+		}
+		b.WriteString("print(len(" + q(v) + "), len(" + q(v) + " + \"xy\"))\nfor i, ch := range " + q(v) + " {\n\tprint(i, \"S\", ch, \"E\")\n}\nprint(\"end\")\n")
+		wantOut = fmt.Sprintf("%d %d\n", len(v), len(v)+2)
+		for i := 0; i < len(v); i++ {
+			wantOut += fmt.Sprintf("%d S %s E\n", i, string(v[i]))
+		}
+		wantOut += "end\n"
+	case "direct-store":
+		// the literal written directly as a returned value, a slice element (literal and assignment), a printed value
+		// and a case expression
+		if origin != "literal" {
+			return "", "", nil, "", nil, false
+		}
+		b.WriteString("func lit() string {\n\treturn " + q(v) + "\n}\nsl := []string{" + q(v) + ", \"k\"}\nsl[3] = " + q(v) + "\nprint(\"S\", sl[0], \"E\")\nprint(\"S\", sl[3], \"E\")\nprint(len(sl), sl[1])\nprint(\"S\", lit(), \"E\")\nprint(\"S\", " + q(v) + ", \"E\")\nswitch v {\ncase \"k\":\n\tprint(\"k\")\ncase " + q(v) + ":\n\tprint(\"case\")\ndefault:\n\tprint(\"default\")\n}\n")
+		wantOut = frame(v) + frame(v) + "4 k\n" + frame(v) + frame(v)
+		if v == "k" {
+			wantOut += "k\n"
+		} else {
+			wantOut += "case\n"
+		}
 	case "write-read":
 		b.WriteString("write(\"out.txt\", v)\nprint(\"S\", read(\"out.txt\"), \"E\")\nwrite(\"out.txt\", v, true)\nprint(exists(\"out.txt\"))\n")
 		wantOut = frame(v) + "1\n"
